@@ -3,5 +3,36 @@ PROP = dict(
     title='Reports enter only an open round; each round aggregates exactly once',
     drivers=['TestC07Rounds'],
     coq_modules=['Model.OracleRound', 'Model.OracleRoundCheck'], case_type='c07_case', check_fn='c07_check', classes_fn='c07_classes', shard=2,
-    rule='TBD', technique='TBD', level_text='TBD', level_note='TBD', assumptions=[], design_ref='5/C07',
+    rule='histories of 22 blocks on the full application fixture (real oracle, registry, reporter, bank, staking keepers; real msg servers; real '
+         'oracle EndBlocker): per block 0-4 operations drawn from MsgTip (7 query kinds: spot prices of the cycle list and outside it, two bridge '
+         'deposits, a bridge withdrawal, undecodable query data, a query type without data spec; amounts 1, 49, 50, 100, 10^6, random), '
+         'MsgSubmitValue (50 % on the current cycle-list query; reporters with and without stake, jailed/unjailed directly; values: 64 hex, '
+         '0x-prefixed, 128 hex, odd length, non-hex, empty), MsgUpdateCyclelist (0-4 entries of any kind), MsgUpdateDataSpec (windows 0,1,2,5,9; '
+         'bridge windows >= 1), then the end blocker; report windows are shortened first so that rounds close inside the history. After every '
+         'operation the whole oracle state (Query, Reports, Aggregates, Nonces, cycle list, both sequencers, the registry windows) is dumped and the '
+         'case carries the sequence of (height, operation, accepted, state). non-trivial = at least one aggregate and one rejected report; '
+         'distinct by seed and history number',
+    technique='Coq theorems (admission iff specification; later report replaces = key-unique sorted store; end blocker = exactly one aggregate per '
+              'closing round by induction over the round list with a permutation argument; tip preservation; rotation arithmetic; store invariant by '
+              'induction over all operation histories) + differential execution of the real msg servers and EndBlocker against the model inside Coq '
+              '(vm_compute), with the executable specification of the property evaluated on every observed state pair',
+    level_text='Machine-checked for all inputs and histories of the model: a report is accepted iff the query is a bridge deposit, or it carries a tip '
+               'or is the scheduled cycle-list query and its window has not closed, and the reporter is unjailed with the minimum stake; withdrawal and '
+               'undecodable queries are never reportable; an accepted report is Set under (query, reporter, round): the store stays sorted and '
+               'key-unique, so a later report of the same reporter in the round replaces the earlier one and no other report changes; the end blocker '
+               'removes exactly the closing rounds and adds exactly one aggregate per closing round, built from that round\'s reports, their summed power '
+               'and the next sequence number (under: no two rounds of one query close in one block, block time strictly increases); a tipped round '
+               'without report keeps its id and amount through the end blocker; the cycle list moves only when the current query has no open window, '
+               'to (seq+1) mod length; the store invariant holds in every reachable state. The model is tied to the code by running the real keeper on '
+               'generated histories and comparing the complete oracle state after every operation.',
+    level_note='Trusted: Coq kernel; the Go driver\'s dump of the oracle collections (query ids and reporter addresses replaced by their byte-order '
+               'ranks). Supplied by the harness, not computed by the model: the reporter\'s stake (C10), the aggregate value and its reporter (C06), '
+               'payment of the tip with the aggregate (C04/C09). closing_distinct (no two rounds of one query close in one block) is a hypothesis of '
+               'the end-blocker theorem: it holds whenever each query has one open round, which only a bridge-deposit re-opening with a report window '
+               'of 0 blocks (a governance parameter; default 2000) can break; the executable specification checks it on every observed end blocker and '
+               'the driver keeps the bridge window >= 1.',
+    assumptions=['block time strictly increases; the end blocker runs once per height',
+                 'the TRBBridge data spec keeps a report window of at least one block (governance parameter, default 2000)',
+                 'collections iterate in key order (cosmossdk.io/collections over an ordered KV store)'],
+    design_ref='5/C07',
 )
